@@ -105,7 +105,9 @@ Judge(sh) ==
 MCSeg == {s \in [atoms : SeqsUpTo(Atoms, MaxAtoms), pipe : SeqsUpTo(Atoms, 1), haspipe : BOOLEAN, amp : BOOLEAN, cont : 0..1] : SegOK(s)}
 MCPos == [semi : MCSemis, comment : BOOLEAN, blocks : SeqsUpTo(MCBlocks, 1)]
 
-Next == phase = "idle" /\ \E k \in 1..MaxSegs : \E segs \in [1..k -> MCSeg], ops \in [1..(k - 1) -> Ops], pos \in MCPos :
+\* (ranges mention a variable so that TLC does not split the relation into one action per element)
+When(S) == IF phase = "idle" THEN S ELSE {}
+Next == \E k \in When(1..MaxSegs) : \E segs \in When([1..k -> MCSeg]), ops \in When([1..(k - 1) -> Ops]), pos \in When(MCPos) :
           Judge([segs |-> segs, ops |-> ops, pos |-> pos])
 Spec == Init /\ [][Next]_vars
 
